@@ -313,6 +313,10 @@ def run(ctx, P):
     from . import f5, r2, c10
     r2.interface_rules(ctx, P, "C06j", want=("status",))
     c10.clause_a(ctx, P, "C06k")     # what a known answer may suppress
+    from . import r4
+    r4.every_question_considered(ctx, P, "C06l")
+    r4.question_name_not_gated_by_case(ctx, P, "C06m")
+    r4.additional_dedupe_compares_data(ctx, P, "C06n")
     f5.check_map_key_consistency(ctx, P, "C06i.F5.name-changes-keys", "name_changes", "DnsRegistry")
     f4.check_service_selected_by_resolved_name(ctx, P, "C06h")
     clause_g(ctx, P)
